@@ -385,11 +385,40 @@ pub fn random_sampling_graph(rng: &mut SplitMix, max_e: u64, max_loops: usize) -
         let cfg = GraphGenCfg {
             max_v: 5,
             max_e,
-            min_e: 1,
+            min_e: if max_e > 6 { max_e - 1 } else { 1 },
             max_loops,
             allow_disconnected: rng.chance(1, 10),
         };
         let (mut edges, mut ext) = random_topology(rng, &cfg);
+        // a small all-massive loop core with a tree of very light massive edges hanging
+        // off it: accepted, and its table holds entries far beyond 2^63
+        if rng.chance(1, 12) && max_e >= 4 {
+            let core = *rng.pick(&[2u64, 3]);
+            let k = rng.range(1, (max_e - core).min(5));
+            let d = rng.range(1, 4) as usize;
+            let mut es: Vec<EdgeSpec> = Vec::new();
+            let wcore = *rng.pick(&[1.0, 1.5, 2.0, 2.5]);
+            if core == 2 {
+                es.push(EdgeSpec { v: (0, 1), massive: true, w: f64::to_bits(wcore) });
+                es.push(EdgeSpec { v: (1, 0), massive: true, w: f64::to_bits(wcore) });
+            } else {
+                for (a, b) in [(0, 1), (1, 2), (2, 0)] {
+                    es.push(EdgeSpec { v: (a, b), massive: true, w: f64::to_bits(wcore) });
+                }
+            }
+            let mut last = 1u8;
+            for j in 0..k {
+                let from = if rng.chance(1, 3) { 0 } else { last };
+                let to = 10 + j as u8;
+                let w: f64 = *rng.pick(&[1e-6, 9.5367431640625e-7, 1e-7, 2.44140625e-4, 3e-5]);
+                es.push(EdgeSpec { v: (from, to), massive: true, w: w.to_bits() });
+                last = to;
+            }
+            let mut sig = cycle_basis(&es, rng);
+            mix_basis(&mut sig, rng);
+            let ext = if rng.chance(1, 2) { vec![0, 1] } else { vec![0, last] };
+            return GraphSpec { d, edges: es, externals: ext, signature: sig, name: String::new() };
+        }
         if rng.chance(1, 7) && edges.len() as u64 + 2 <= max_e {
             // disjoint union with a second small component on fresh labels
             let used: Vec<u8> = edges.iter().flat_map(|&(a, b)| [a, b]).chain(ext.iter().copied()).collect();
@@ -418,14 +447,21 @@ pub fn random_sampling_graph(rng: &mut SplitMix, max_e: u64, max_loops: usize) -
         // weights: uniform w with dod slightly positive, or menu
         let mut especs: Vec<EdgeSpec> = Vec::new();
         let mode = rng.below(3);
+        // sometimes massive edges with very small weights: table entries beyond 2^63
+        let tiny_mode = rng.chance(1, 10);
         let delta = *rng.pick(&[0.125, 0.25, 0.5, 1.0, 0.3, 2.0]);
         let w_uniform = (d as f64 * l as f64 / 2.0 + delta) / ne as f64;
         for &(a, b) in &edges {
-            let massive = all_massive || rng.chance(1, 5);
-            let w = match mode {
+            let tiny = tiny_mode && rng.chance(1, 2);
+            let massive = all_massive || tiny || rng.chance(1, 5);
+            let w = if tiny {
+                *rng.pick(&[1e-6, 9.5367431640625e-7, 3e-5, 1e-7])
+            } else {
+                match mode {
                 0 => w_uniform,
                 1 => w_uniform * *rng.pick(&[1.0, 1.0, 1.25, 0.875, 1.5]),
                 _ => *rng.pick(WEIGHT_MENU),
+                }
             };
             especs.push(EdgeSpec { v: (a, b), massive, w: w.to_bits() });
         }
